@@ -63,11 +63,12 @@ def showRes (r : Res) : String :=
    | .ok () => showPos r.st
    | .error e => "err " ++ e.name) ++ unsafeTag r.acc
 
-/-- the stream loop of the harness: `get_buffered_data` / `advance_buffer` until eof or error -/
+/-- the stream loop of the harness: `get_buffered_data` / `advance_buffer` until eof or error, and then `extra`
+more calls on the same stream (what a failed call leaves behind is part of the comparison) -/
 def streamLoop (fixed : Bool) (im : ByteArray) (bs : UInt32) (words : Array UInt32) (fragIdx fragOff : UInt32)
-    (fstart : UInt64) (fword : UInt32) : Nat → StreamSt → UInt64 → String → List Access → String × List Access
-  | 0, _, _, out, acc => (out ++ "toolong", acc)
-  | fuel + 1, s, diskOff, out, acc =>
+    (fstart : UInt64) (fword : UInt32) : Nat → Nat → StreamSt → UInt64 → String → List Access → String × List Access
+  | 0, _, _, _, out, acc => (out ++ "toolong", acc)
+  | fuel + 1, extra, s, diskOff, out, acc =>
     let w := words.getD s.blkIdx.toNat 0
     let want := if s.filesz < bs.toUInt64 then s.filesz.toUInt32 else bs
     let l := blkLoad im diskOff w want
@@ -75,14 +76,18 @@ def streamLoop (fixed : Bool) (im : ByteArray) (bs : UInt32) (words : Array UInt
     let needFrag := !(s.bufOff < s.bufUsed) && s.filesz != 0 && !(s.blkIdx < s.blkCount)
     let r := streamFill fixed bs s w l pre.1 fragOff
     let acc := acc ++ (if needFrag then pre.2 else []) ++ r.2.2
+    let diskOff' := if s.blkIdx < s.blkCount && !(s.bufOff < s.bufUsed) && s.filesz != 0 then diskOff + (onDiskSize w).toUInt64 else diskOff
     match r.2.1 with
-    | .eof => (out ++ "eof", acc)
-    | .err e => (out ++ "err " ++ e.name, acc)
+    | .eof =>
+      if extra == 0 then (out ++ "eof", acc)
+      else streamLoop fixed im bs words fragIdx fragOff fstart fword fuel (extra - 1) r.1 diskOff (out ++ "eof ") acc
+    | .err e =>
+      if extra == 0 then (out ++ "err " ++ e.name, acc)
+      else streamLoop fixed im bs words fragIdx fragOff fstart fword fuel (extra - 1) r.1 diskOff (out ++ "err " ++ e.name ++ " ") acc
     | .data n =>
       let s' := r.1
-      let diskOff' := if s.blkIdx < s.blkCount && !(s.bufOff < s.bufUsed) then diskOff + (onDiskSize w).toUInt64 else diskOff
       -- advance_buffer(sz): buf_off += min(buf_used - buf_off, sz)
-      streamLoop fixed im bs words fragIdx fragOff fstart fword fuel { s' with bufOff := s'.bufOff + n } diskOff'
+      streamLoop fixed im bs words fragIdx fragOff fstart fword fuel extra { s' with bufOff := s'.bufOff + n } diskOff'
         (out ++ toString n ++ " ") acc
 
 def bytesToImage (l : List UInt8) : ByteArray := ByteArray.mk l.toArray
@@ -278,7 +283,7 @@ def step (s : St) (line : String) : St × String :=
       | _, _ => (s, "bad-op")
   | ["seek", a, b] => match s.cfg, u64 a, u64 b with
       | some c, some a, some b =>
-        let r := seek (mkCfg s c) s.m a b
+        let r := seekG s.fixed (mkCfg s c) s.m a b
         ({ s with m := r.st }, showRes r)
       | _, _, _ => (s, "bad-op")
   | ["read", a] => match s.cfg, u64 a with
@@ -306,7 +311,7 @@ def step (s : St) (line : String) : St × String :=
       | some bs, some filesz, some start, some fidx, some foff, some fstart, some fword, some ws =>
         if bs == 0 then (s, "bad-op") else
         let st : StreamSt := ⟨0, 0, filesz, 0, ws.size.toUInt32, false⟩
-        let r := streamLoop s.fixed s.img bs ws fidx foff fstart fword 4098 st start "" []
+        let r := streamLoop s.fixed s.img bs ws fidx foff fstart fword 4104 2 st start "" []
         (s, r.1 ++ unsafeTag r.2)
       | _, _, _, _, _, _, _, _ => (s, "bad-op")
   | ["getblk", bs, filesz, start, idx, ws] =>
@@ -381,10 +386,10 @@ def step (s : St) (line : String) : St × String :=
       | .error e => ({ s with ids := #[], idUsed := 0 }, "err " ++ e.name)
       | .ok req =>
         match readTableEnv s.img req with
-        | .error e => ({ s with ids := #[], idUsed := 0 }, "err " ++ e.name)
-        | .ok tbl =>
+        | (.error e, acc) => ({ s with ids := #[], idUsed := 0 }, "err " ++ e.name ++ unsafeTag acc)
+        | (.ok tbl, acc) =>
           let r := idTableRead s.sb (.ok ())
-          ({ s with ids := tbl, idUsed := s.sb.idCount.toUInt64 }, showR r.1 ++ unsafeTag r.2)
+          ({ s with ids := tbl, idUsed := s.sb.idCount.toUInt64 }, showR r.1 ++ unsafeTag (acc ++ r.2))
   | ["idx", i] => match u16 i with
       | some i => match indexToId s.idUsed i with
         | .error e => (s, "err " ++ e.name)
@@ -396,8 +401,8 @@ def step (s : St) (line : String) : St × String :=
       | .ok none => ({ s with frags := #[], fragUsed := 0 }, "ok")
       | .ok (some req) =>
         match readTableEnv s.img req with
-        | .error e => ({ s with frags := #[], fragUsed := 0 }, "err " ++ e.name)
-        | .ok tbl => ({ s with frags := tbl, fragUsed := s.sb.fragCount.toUInt64 }, "ok")
+        | (.error e, acc) => ({ s with frags := #[], fragUsed := 0 }, "err " ++ e.name ++ unsafeTag acc)
+        | (.ok tbl, acc) => ({ s with frags := tbl, fragUsed := s.sb.fragCount.toUInt64 }, "ok" ++ unsafeTag acc)
   | ["fragidx", i] => match u32 i with
       | some i => match fragLookup s.fragUsed i with
         | .error e => (s, "err " ++ e.name)
